@@ -1,10 +1,10 @@
 """C01: every returned solution satisfies all rules."""
 import vlib
-from props import solverstream as ss, tracecheck as tc, enctie
+from props import solverstream as ss, tracecheck as tc, enctie, antie
 
 THEOREMS = ["C01_oracle_correct", "C01_closed_model_valid", "C01_final_state_valid", "C01_trace_sound",
             "C01_encoder_complete", "C01_encoder_model_valid", "C01_encoder_final_closed",
-            "C01_watch_created_ok", "C01_unit_is_asserted", "C01_late_lock_is_handled", "C01_decide_complete"]
+            "C01_watch_created_ok", "C01_unit_is_asserted", "C01_late_lock_is_handled", "C01_decide_complete", "C01_complete_units_hold"]
 CHECKER = ("coqc Props/C01.v + Print Assumptions; harness solve_cases (debug+release, sync+yield): (a) hook logs -> extracted "
            "check_sat_log_lenient (trace inclusion, theorem C01_trace_sound), (b) extracted o_valid on every returned solution, "
            "(c) extracted encoder model (enc_solve) vs the dumped clause database of every synchronous run: clause-for-clause "
@@ -26,7 +26,13 @@ def run(res, tier, seed, replay):
     tc.annotate(recs)
     enctie.annotate(recs)
     enctie.annotate_watch(recs)
+    antie.annotate_decides(recs)
     for r in recs:
+        if not antie.ok_complete(r):
+            res.tie_break(f"at a call of Solver::decide a clause of the database was falsified or an assertion (exclusion, Unknown "
+                          f"dependencies, requirement without candidates, unit learnt clause) was not in force (extracted prop_complete; "
+                          f"hypothesis of C01_complete_units_hold / C04_complete_no_panic) in {r['stream']}: {r['decides']}",
+                          dict(tc.trace_replay(r), decides=r["decides"]))
         if not enctie.ok_watch(r):
             res.tie_break(f"clause-creation correspondence no longer checks for a run in {r['stream']}: the clauses the implementation reports "
                           f"as conflicting / registers as assertions differ from the model of the clause constructors, or a side condition "
@@ -56,6 +62,8 @@ def run(res, tier, seed, replay):
                 "requirements, hints, locks, exclusions, unions, Unknown deps), run in debug+release and sync+yielding "
                 "runtimes; every solution judged by o_valid, every hook log by the extracted trace checker; non-trivial = "
                 "distinct (case, build) with a solution of >= 2 solvables")
+    dd = [r["decides"] for r in recs if "decides" in r and "n" in r["decides"]]
+    res.extra.update({"decide_calls_with_propagation_state_checked": sum(x["n"] for x in dd)})
     res.extra.update({"outcomes": hist, "solutions_checked": nsat, "hangs": len(hangs)}, **tc.stats(recs), **enctie.stats(recs))
     return res.finish(CHECKER, vlib.TRUSTED_BASE,
                       ["provider well-formedness as generated (names consistent, candidate lists duplicate-free)",
